@@ -456,7 +456,7 @@ class kFlowDecomp(pathmodel.AbstractPathModelDAG):
         non_empty_paths = []
         non_empty_weights = []
         for path, weight in zip(solution["paths"], solution["weights"]):
-            if len(path) > 1:
+            if len(path) > 0:
                 non_empty_paths.append(path)
                 non_empty_weights.append(weight)
         return {"paths": non_empty_paths, "weights": non_empty_weights}
